@@ -93,6 +93,39 @@ def run(ctx):
     from .c03 import check_decision_points
     from ..engmodel import LISTER
     check_decision_points(ctx, m, 'C14.R6', (LISTER,))
+    # the date-range helpers: a bound is "not given" only when it is None (0 is a legitimate date, the epoch)
+    ctx.rule('C14.R7', 'in the Initial Date range helpers a recorded bound is tested for presence with `is None` / `is not None` only: a truthiness test would treat the date 0 (the epoch) as a missing bound and turn a range into an exact match')
+    n_b = 0
+    for hname, bound_params in (('_is_valid_date', (2, 3)), ('_track_date_attributes', ())):
+        hf = m.method(hname)
+        hps = params(hf)
+        hg = CFG(hf)
+        bounds = set(hps[i] for i in bound_params)
+        store = hps[1] if hname == '_track_date_attributes' else None
+        def is_bound(e):
+            if isinstance(e, ast.Name) and e.id in bounds:
+                return True
+            if store and isinstance(e, ast.Call) and isinstance(e.func, ast.Attribute) and e.func.attr == 'get' and isinstance(e.func.value, ast.Name) and e.func.value.id == store:
+                return True
+            if store and isinstance(e, ast.Subscript) and isinstance(e.value, ast.Name) and e.value.id == store:
+                return True
+            return False
+        if store:
+            for a_ in walk_local(hf):
+                if isinstance(a_, ast.Assign) and isinstance(a_.targets[0], ast.Name) and is_bound(a_.value):
+                    bounds.add(a_.targets[0].id)
+        for tn in [x for x in hg.nodes if x.kind == 'test']:
+            tt = tn.stmt
+            if is_bound(tt):
+                n_b += 1
+                ctx.fail('C14.R7', 'KmipEngine.%s|truthiness test of %s' % (hname, U(tt)), m.site(tt, hf),
+                         'the presence of the date bound %s is decided by its truthiness: the bound 0 (1970-01-01T00:00:00Z) counts as not given' % U(tt))
+            else:
+                pp = cmp_parts(tt)
+                if pp and is_bound(pp[0]) and isinstance(pp[2], ast.Constant) and pp[2].value is None:
+                    n_b += 1
+                    ctx.ok('C14.R7', m.site(tt, hf), 'bound %s tested with %s None' % (U(pp[0]), pp[1]))
+    ctx.count('date_bound_presence_tests', n_b, 4)
     fn = m.method('_process_locate')
     g = CFG(fn)
     rd = ReachingDefs(g)
